@@ -267,7 +267,8 @@ def main():
             states=max(agg["paths"], 1), transitions=max(agg["forks"] + agg["paths"], 1),
             traces_validated_against_impl=agg["tv_runs"],
             cases=agg["cases"], cases_with_complete_path_coverage=agg["complete_cases"], paths=agg["paths"],
-            obligations=dict(total=agg["obligations"], normalised_trivial=agg["trivial"], decided_by_solver=agg["solver"],
+            obligations=agg["obligations"], discharged=agg["trivial"] + agg["solver"] + agg["concrete"],
+            obligation_classes=dict(total=agg["obligations"], normalised_trivial=agg["trivial"], decided_by_solver=agg["solver"],
                              structural=agg["concrete"], violated=agg["violated"], unknown=agg["unknown"]),
             solver=dict(queries=agg["queries"], seconds=round(agg["solver_s"], 3), by_kind=by_kind, engine="z3 " + _z3v()),
             functions_executed_symbolically=sorted(fns),
